@@ -85,8 +85,8 @@ def gen_case(run_seed: int, tier: str, index: int = 0) -> dict:
             pre_modes["m/" + dest] = r.choice([0o600, 0o444, 0o664])
     for i in range(n):
         nb = r.choice([0, 1, 3, 8, 9, 16, 17, 40, 64, 130, 300])
-        choices = ["sim", "np", "lazy", "proto", "ext_other", "bare"]
-        weights = [40, 12, 10, 6, 10, 4]
+        choices = ["sim", "np", "lazy", "proto", "ext_other", "bare", "ext_broken"]
+        weights = [40, 12, 10, 6, 10, 4, 2]
         if dest_key is not None:
             choices.append("ext_dest")
             weights.append(45 if scenario == "self" else 25)
@@ -108,6 +108,10 @@ def gen_case(run_seed: int, tier: str, index: int = 0) -> dict:
             spec["kind"], spec["file"], spec["pad"] = "ext", "other", r.choice([0, 2])
         elif kind == "ext_dest":
             spec["kind"], spec["file"], spec["pad"] = "ext", "dest", r.choice([0, 0, 3])
+        elif kind == "ext_broken":
+            spec["kind"], spec["file"], spec["broken"] = "ext", "other", r.choice(["notdir", "loop", "toolong", "nul"])
+            pre_files["m/blocker"] = "00"
+            pre_symlinks["m/loop"] = "loop"
         if i > 0 and r.random() < 0.12 and "same_as" not in specs[-1]:
             j = r.randrange(i)
             if "same_as" not in specs[j]:
@@ -245,8 +249,8 @@ def exec_once(case: dict, plan: dict | None, ref_new: bytes | None, *, root: str
             if isinstance(t, ir.ExternalTensor):
                 try:
                     same = os.path.samefile(t.path, dest_real)
-                except OSError:
-                    same = False
+                except (OSError, ValueError):
+                    continue  # a tensor whose path cannot be stat'ed was never readable: nothing to preserve
                 backed.append((t, payload, same))
         state = {"seen_new": False, "viol": None, "boundaries": 0}
 
@@ -508,7 +512,10 @@ def run_case(case: dict) -> dict:
     ref_new, ref_err = _reference(case)
     if ref_err is not None:
         expected_refusal = case["options"].get("max_shard_size_bytes") is not None and "FileExistsError" in ref_err
-        if not expected_refusal:
+        if any(s.get("broken") for s in case["tensors"]):
+            # the model holds an unreadable external tensor: every save fails; the failure clauses are what is checked
+            inc("unsavable_model_unreadable_input")
+        elif not expected_refusal:
             inc("reference_raised")
             res["ref_error"] = ref_err
             return res
